@@ -328,7 +328,7 @@ func guard[C any](check func(C) *core.Failure) func(C) *core.Failure {
 func TestC17(t *testing.T) {
 	r := core.Start(t, "C17")
 	defer r.Finish()
-	r.Rule = "EC: curve x scalar drawn with edge classes (1..3, n-1..n-3, 2^k±1, 1-3 leading zero bytes, random), written by gopki and decoded by xref/crypto/x509/gopki, or built in a foreign legal PKCS#8 shape and read by gopki; RSA: pooled keys 1024-4096 both directions; files: every subset/order of {cert,key,csr} with and without hash line; invalid: truncation, wrong outer tag, scalar>=n, unknown curve/algorithm OID, RSA n!=p*q, random bytes. Non-trivial = scalar with a leading zero byte, a foreign encoding, a file with >= 2 blocks, or an invalid input; distinct by (curve,scalar,encoding) / (order,hash) / input bytes."
+	r.Rule = "EC: curve x scalar drawn with edge classes (1..3, n-1..n-3, 2^k±1, 1-3 leading zero bytes, random), written by gopki and decoded by xref/crypto/x509/gopki, or built in a foreign legal PKCS#8 shape (curve OID outside / inside / both, public point absent / uncompressed / compressed, scalar minimal / fixed / zero-padded) and read by gopki; RSA: pooled keys 1024-4096 both directions; files: every subset/order of {cert,key,csr} with and without hash line; invalid: truncation, wrong outer tag, scalar>=n, unknown curve/algorithm OID, RSA n!=p*q, random bytes. Non-trivial = scalar with a leading zero byte, a foreign encoding, a file with >= 2 blocks, or an invalid input; distinct by (curve,scalar,encoding) / (order,hash) / input bytes."
 	r.Assumptions = []string{"crypto/x509, crypto/ecdsa, crypto/rsa, encoding/pem and math/big are correct", "curve domain parameters as in ecref (validated: G on curve, n*G = O)", "scalar 0 is unspecified and not generated"}
 
 	genEC := func(t *rapid.T) c17EC {
@@ -345,6 +345,9 @@ func TestC17(t *testing.T) {
 				enc.OuterCurve, enc.InnerCurve = false, true
 			}
 			enc.Public = rapid.Bool().Draw(t, "public")
+			if enc.Public && rapid.IntRange(0, 2).Draw(t, "compressed") == 0 {
+				enc.Compressed = true
+			}
 			l := (cv.N.BitLen() + 7) / 8
 			switch rapid.IntRange(0, 3).Draw(t, "scalarlen") {
 			case 1:
@@ -423,7 +426,7 @@ func TestC17(t *testing.T) {
 				new(big.Int).Lsh(big.NewInt(1), uint(8*(l-2))), big.NewInt(255), big.NewInt(256)}
 			for _, d := range edges {
 				for _, enc := range []*ecEnc{nil, {OuterCurve: true, Public: true}, {OuterCurve: true}, {InnerCurve: true, Public: true},
-					{OuterCurve: true, InnerCurve: true}, {OuterCurve: true, ScalarLen: len(d.Bytes())}, {OuterCurve: true, ScalarLen: l + 2, Public: true}} {
+					{OuterCurve: true, InnerCurve: true}, {OuterCurve: true, ScalarLen: len(d.Bytes())}, {OuterCurve: true, ScalarLen: l + 2, Public: true}, {OuterCurve: true, Public: true, Compressed: true}} {
 					i++
 					if !r.Mine(i) || d.Cmp(cv.N) >= 0 {
 						continue
